@@ -70,6 +70,8 @@ def run(ctx, col, tier):
     repo = ctx.repo
     from ..rules import stateless as _stateless_memo
     _stateless_memo.run_memo(ctx, col)
+    from ..rules import rootpos as _rootpos
+    _rootpos.run(ctx, col, ('swcgeom.core.tree_utils', 'swcgeom.core.tree_utils_impl', 'swcgeom.core.tree', 'swcgeom.transforms.tree', 'swcgeom.core.swc_utils.subtree'))
     col.rule("R-UNIF", "kept nodes' columns are gathered for the source's whole key set with the "
              "single old-id mapping returned by the compaction call; id/pid come from the same call; "
              "the reported mapping is filled from that very value", floor=9, shape=True)
